@@ -1042,6 +1042,13 @@ func c17(c *Ctx) {
 			}
 		}
 	}
+	// ---------- Y2b the two look-up errors are told apart by identity in the API: they arrive there as GetSession made them
+	if k := c.errorIdentity("C17.Y2", []string{"api", "main", "ircserver"}, func(s string) bool {
+		return strings.Contains(s, "ErrSessionNotYetSeen") || strings.Contains(s, "ErrNoSuchSession")
+	},
+		"'not yet seen' is then taken for 'no such session': a lagging follower answers 404 and the client gives its live session up"); k < 1 {
+		r.Break("C17.Y2: only %d comparisons with the session look-up errors found", k)
+	}
 	// ---------- Y6 an end that is announced happens: a session whose QUIT is relayed to its peers, or that is sent the closing
 	// ERROR line, is ended by deleteSessionLocked on every path through the announcement (before or after it)
 	nAnn := 0
